@@ -51,3 +51,13 @@ func VerifRegisterDrivers(atName, xaName string, target driver.Driver) {
 		})
 	}
 }
+
+// VerifOnRequeue, when set, is called each time the async worker puts a
+// branch-commit context back into its queue (a simulator lets time pass there).
+var VerifOnRequeue func()
+
+func verifRequeue() {
+	if f := VerifOnRequeue; f != nil {
+		f()
+	}
+}
